@@ -4,7 +4,7 @@
 //! personality / LSDA, unwind state at the probe offsets through
 //! `unwind_info_for_address`) and reports everything plus the raw bytes.
 //! No expectations and no DWARF knowledge live here.
-use gimli::write::{self, Address, EndianVec};
+use gimli::write::{self, Address, EndianVec, Writer};
 use gimli::{
     BaseAddresses, CfaRule, CieOrFde, CommonInformationEntry, DebugFrame, EhFrame, EndianSlice,
     Pointer, Register, RegisterRule, RunTimeEndian, UnwindContext, UnwindOffset,
@@ -256,6 +256,8 @@ fn replay(case: &Value) -> Value {
     let bases = BaseAddresses::default().set_eh_frame(0);
     // ---- .debug_frame
     let mut w = write::DebugFrame(EndianVec::new(endian(le)));
+    // bytes that are already in the section before the table is written
+    w.0.write(&bytes_of(&case["pre"]["debug"])).expect("prefix");
     out["debug"] = match ft.write_debug_frame(&mut w) {
         Err(e) => errv(&e),
         Ok(()) => {
@@ -268,6 +270,7 @@ fn replay(case: &Value) -> Value {
     };
     // ---- .eh_frame
     let mut w = write::EhFrame(EndianVec::new(endian(le)));
+    w.0.write(&bytes_of(&case["pre"]["eh"])).expect("prefix");
     out["eh"] = match ft.write_eh_frame(&mut w) {
         Err(e) => errv(&e),
         Ok(()) => {
